@@ -1,6 +1,7 @@
 import PromModel.Tsdb.Damage
 import PromModel.Suites.DamageSuite
 import PromProofs.Damage
+import PromProofs.DamageReplay
 /-
   C04 — Damaged on-disk data never yields wrong samples.
   Property theorems only.  Model: PromModel/Tsdb/Damage.lean on top of the WAL framing model of C13
@@ -54,7 +55,7 @@ theorem no_invention (ps pps : Nat) (crc : Crc) (hps : WF ps) (batches : List (L
     real reader (suite `wal` of C13 and suite `damage`): a phantom empty record, and — for a record that
     spans pages — the record WITHOUT its last fragment.  The replay ignores empty records (unknown record
     type) and rejects or shortens the truncated one in the record decoder; `Repair` re-reads without
-    padding, so neither survives the repair. -/
+    padding, so neither survives the repair.  `truncate_padded_at_most_one_extra` bounds the effect. -/
 
 def c0 : Crc := fun _ => 0
 
@@ -98,17 +99,47 @@ theorem padded_truncation_mangled_witness :
     have e2 : rstep 16 c0 ⟨16, 1, [1, 2, 3, 4, 5, 6, 7, 8, 9], 2⟩ [4] = .done (.eof 17) := by rfl
     rw [rloop_of_cont e1 (by decide), rloop_done e2]
 
-/-- Full statement for the padded reader, NOT proved (kept visible): reading a log segment cut at any byte
-    with `Head.Init`'s reader returns a prefix of the segment's records followed by at most one extra
-    record (the fragment straddling the cut, completed by zeros).  Missing: an induction like
-    `rloop_take_prefix` for `take n s ++ zeros k` showing that after the straddling step only zeros remain
-    (which never emit).  The sweep of suite `damage`/`wal` compares the real reader with `readAll` on every
-    truncation offset. -/
-def truncate_padded_at_most_one_extra_full : Prop :=
-  ∀ (ps pps : Nat) (crc : Crc), WF ps → ∀ (batches : List (List Bytes)) (seg : Bytes),
-    seg ∈ segments ps (logAll ps pps crc batches) → ∀ n,
-      ∃ pre extra, (readAll ps crc [seg.take n]).1 = pre ++ extra ∧
-        pre <+: (readAll ps crc [seg]).1 ∧ extra.length ≤ 1
+/-- **Truncation under the zero-padding reader, any file.** `Head.Init` reads a segment through
+    `segmentBufReader`, which pads a short file with zeros to the page boundary.  For ANY file content `seg`
+    cut at ANY byte `n`, what that reader returns is a prefix of what the plain reader returns on the whole
+    file, followed by AT MOST ONE extra record (the fragment straddling the cut, completed by zeros — the
+    two witnesses above).  Unconditional in `crc` and `ps`. -/
+theorem truncate_padded_at_most_one_extra_any (ps : Nat) (crc : Crc) (seg : Bytes) (n : Nat) :
+    ∃ pre extra, (readAll ps crc [seg.take n]).1 = pre ++ extra ∧
+      pre <+: (rloop ps crc RState.init seg).1 ∧ extra.length ≤ 1 := by
+  have hmin : seg.take n = seg.take (min n seg.length) := by
+    rcases Nat.le_total n seg.length with h | h
+    · rw [Nat.min_eq_left h]
+    · rw [Nat.min_eq_right h, List.take_of_length_le h, List.take_length]
+  have hst : ∃ k, segStream ps [seg.take n] = seg.take (min n seg.length) ++ zeros k := by
+    unfold segStream segPad
+    by_cases h : (seg.take n).length % ps ≠ 0
+    · refine ⟨ps - (seg.take n).length % ps, ?_⟩
+      simp only [List.map_cons, List.map_nil, List.flatten_cons, List.flatten_nil, List.append_nil, if_pos h]
+      rw [← hmin]
+    · refine ⟨0, ?_⟩
+      simp only [List.map_cons, List.map_nil, List.flatten_cons, List.flatten_nil, List.append_nil, if_neg h]
+      rw [← hmin]; simp [zeros]
+  obtain ⟨k, hk⟩ := hst
+  unfold readAll
+  rw [hk]
+  exact rloop_take_pad ps crc seg.length seg (Nat.le_refl _) RState.init (min n seg.length) k (Nat.min_le_right _ _)
+
+/-- **Truncation of a log segment under the zero-padding reader**: a prefix of the segment's records plus at
+    most one extra record. -/
+theorem truncate_padded_at_most_one_extra (ps pps : Nat) (crc : Crc) (hps : WF ps)
+    (batches : List (List Bytes)) (seg : Bytes) (hseg : seg ∈ segments ps (logAll ps pps crc batches)) (n : Nat) :
+    ∃ pre extra, (readAll ps crc [seg.take n]).1 = pre ++ extra ∧
+      pre <+: (readAll ps crc [seg]).1 ∧ extra.length ≤ 1 := by
+  obtain ⟨sr, hsegs, hsr, _⟩ := (Inv.logAll pps hps.1 hps.2 batches (crc := crc)).segments
+  rw [hsegs] at hseg
+  obtain ⟨p, hp, rfl⟩ := List.mem_map.mp hseg
+  have hal : p.1.length % ps = 0 := (hsr p hp).end_mod
+  have e : readAll ps crc [p.1] = rloop ps crc RState.init p.1 := by
+    unfold readAll segStream
+    simp [segPad_aligned hal]
+  rw [e]
+  exact truncate_padded_at_most_one_extra_any ps crc p.1 n
 
 /-! ### One damaged byte inside a checksummed payload -/
 
@@ -255,13 +286,29 @@ theorem wbl_sample_reattributed_witness :
     let r3 := aOpen r2.2 none none
     r1.1.all = [] ∧ r2.1.all = [(99, 200, 9)] ∧ r3.1.all = [(99, 200, 9), (99, 50, 8)] := by decide
 
-/-- Full statement of the DB-level clause, NOT proved here (no byte-level head/query model in this
-    property; decided on the real database by the judge of suite `damage`): with an intact WAL, every
-    sample returned after `aOpen` was logged under the labels it is returned with. The WBL clause is
-    restricted to an intact WAL because of the two witnesses above. -/
-def reopen_damaged_no_invention_full : Prop :=
-  ∀ (l : ALogs) (wblCut : Cut), ∀ x ∈ (aOpen l none wblCut).1.all,
-    ∃ ref, (ARec.series ref x.1) ∈ l.wal.flatten ∧
-      ∃ xs, (ARec.samples xs ∈ l.wal.flatten ∨ ARec.samples xs ∈ l.wbl.flatten) ∧ (ref, x.2.1, x.2.2) ∈ xs
+/-- **No invention at record level, any damage positions.**  After `aOpen` with the WAL and/or the WBL cut
+    at any record, every sample returned `(labels, t, v)` is justified by the logs as they are: a series
+    record `(ref, labels)` of the WAL and a samples record of the WAL or WBL that carries `(ref, t, v)`.
+    (This is all the logs can promise: F19 above satisfies it — the reused reference makes the logs
+    themselves ambiguous; the judge of suite `damage` checks the stronger statement against the history of
+    appends on the real database.) -/
+theorem reopen_damaged_no_invention (l : ALogs) (walCut wblCut : Cut) :
+    ∀ x ∈ (aOpen l walCut wblCut).1.all,
+      ∃ ref, ARec.series ref x.1 ∈ l.wal.flatten ∧
+        ∃ xs, (ARec.samples xs ∈ l.wal.flatten ∨ ARec.samples xs ∈ l.wbl.flatten) ∧ (ref, x.2.1, x.2.2) ∈ xs := by
+  intro x hx
+  have hinv := aOpen_inv l walCut wblCut
+  simp only [AHead.all, List.mem_flatMap, List.mem_map] at hx
+  obtain ⟨s, hs, y, hy, rfl⟩ := hx
+  obtain ⟨h1, h2⟩ := hinv s hs
+  obtain ⟨xs, hx1, hx2⟩ := h2 y hy
+  exact ⟨s.ref, h1, xs, List.mem_append.mp hx1, hx2⟩
+
+/-! The DB-level clause of C04 over whole histories (damage, open, further appends, restart: "everything
+    returned was appended under these labels") is refuted on the model by `wbl_sample_reattributed_witness`
+    and its session-level completeness clause by `wbl_skipped_after_wal_repair_witness`; there is no
+    byte-level head/query/append model in this property, so beyond the theorems above that clause is decided
+    on the real database by the judge of suite `damage` at every damage site (findings F18, F19, C04-F1,
+    C04-F2 are its known failures). -/
 
 end Prom.C04
